@@ -11,6 +11,10 @@ import Mathlib.Tactic.FieldSimp
 import Mathlib.Tactic.Ring
 import Mathlib.Tactic.Abel
 import Mathlib.Tactic.NormNum
+import Mathlib.Tactic.Linarith
+import Mathlib.Algebra.Order.BigOperators.Group.Finset
+import Mathlib.Algebra.Order.Ring.Int
+import Mathlib.Data.Int.ModEq
 import BronVerif.Lemmas.SignAlgSpec
 /-!
 # C01 — threshold signing by a qualified quorum yields a publicly valid signature (property theorems)
@@ -185,6 +189,71 @@ theorem boldyreva_valid (e : G₁ → G₂ → T)
   rw [hs, hl, hr]
 end bls
 
+
+
+/-! ### Lindell17: the Paillier plaintext of `c₃` does not wrap -/
+
+section lindell17
+
+/-- `lindell17_no_wrap` (plaintext level of `CalcC3`): with `0 ≤ ρ < q²`, every reduced term in
+`[0, q)` (`a = k₂⁻¹m′`, the `d` fused exponents `eᵢ = k₂⁻¹ r cᵢ`, the two encrypted zero-refreshed
+terms `z, t`), primary share plaintexts `pᵢ ∈ [0, 3q)` and the guard `2(q³ + 3dq² + 2q) < N` that
+`CalcC3` enforces, the integer `T = ρq + a + Σ eᵢpᵢ + z + t` that the homomorphic evaluation produces
+satisfies `0 ≤ T`, `2T < N` — so the symmetric decryption returns `T` itself: any `T′ ≡ T (mod N)` in
+`(−N/2, N/2]` equals `T` — and `T mod q` is the unmasked value `(a + Σ eᵢpᵢ + z + t) mod q`. -/
+theorem lindell17_no_wrap (q N : ℤ) (d : ℕ) (ρ a z t : ℤ) (e p : Fin d → ℤ) (hq : 0 < q)
+    (hρ : 0 ≤ ρ ∧ ρ < q ^ 2) (ha : 0 ≤ a ∧ a < q) (hz : 0 ≤ z ∧ z < q) (ht : 0 ≤ t ∧ t < q)
+    (he : ∀ i, 0 ≤ e i ∧ e i < q) (hp : ∀ i, 0 ≤ p i ∧ p i < 3 * q)
+    (hN : 2 * (q ^ 3 + 3 * d * q ^ 2 + 2 * q) < N) :
+    let T := ρ * q + a + ∑ i, e i * p i + z + t
+    0 ≤ T ∧ 2 * T < N ∧
+      (∀ T' : ℤ, T' ≡ T [ZMOD N] → -N < 2 * T' → 2 * T' ≤ N → T' = T) ∧
+      T % q = (a + ∑ i, e i * p i + z + t) % q := by
+  intro T
+  have hsum0 : 0 ≤ ∑ i, e i * p i := Finset.sum_nonneg fun i _ => mul_nonneg (he i).1 (hp i).1
+  have hsum : ∑ i, e i * p i ≤ d * (3 * q ^ 2) := by
+    have : ∑ i : Fin d, e i * p i ≤ ∑ _i : Fin d, 3 * q ^ 2 := by
+      refine Finset.sum_le_sum fun i _ => ?_
+      have h1 := he i; have h2 := hp i
+      nlinarith [h1.1, h1.2, h2.1, h2.2]
+    simpa [Finset.sum_const, nsmul_eq_mul] using this
+  have hρq : ρ * q + a < q ^ 3 := by nlinarith [hρ.1, hρ.2, ha.1, ha.2]
+  have hT0 : 0 ≤ T := by
+    have : 0 ≤ ρ * q := mul_nonneg hρ.1 hq.le
+    simp only [T]; linarith [ha.1, hz.1, ht.1]
+  have hTN : 2 * T < N := by simp only [T]; nlinarith [hz.2, ht.2]
+  refine ⟨hT0, hTN, ?_, ?_⟩
+  · intro T' hcong h1 h2
+    obtain ⟨c, hc⟩ := (Int.modEq_iff_dvd.mp hcong)
+    have hNpos : 0 < N := by linarith
+    have hc0 : c = 0 := by
+      have hlo : -1 < c := by
+        by_contra h; push_neg at h
+        have : N * c ≤ -N := by nlinarith
+        nlinarith
+      have hhi : c < 1 := by
+        by_contra h; push_neg at h
+        have : N ≤ N * c := by nlinarith
+        nlinarith
+      omega
+    subst hc0; simp at hc; linarith
+  · have : T = (a + ∑ i, e i * p i + z + t) + q * ρ := by simp only [T]; ring
+    rw [this, Int.add_mul_emod_self_left]
+
+/-- `lindell17_valid`: the primary's output `s = k₁⁻¹ · (T mod q)` with `T ≡ k₂⁻¹(m′ + r·x)` is
+`(k₁k₂)⁻¹(m′ + r x)`: the ECDSA equation holds with `R = (k₁k₂) • g`. -/
+theorem lindell17_valid (g : G) (k1 k2 x m rx : F) (hk1 : k1 ≠ 0) (hk2 : k2 ≠ 0) (hm : m + rx * x ≠ 0) :
+    EcdsaEq g (x • g) ((k1 * k2) • g) m rx (k1⁻¹ * (k2⁻¹ * (m + rx * x))) :=
+  ecdsa_valid_of_response g (k1 * k2) x m rx _ (mul_ne_zero hk1 hk2)
+    (by rw [mul_inv, mul_assoc]) hm
+
+/-- the CGGMP21 MtA range conditions (Paillier affine operations deliver `α + β = γ·k` without
+wrap-around) are NOT mechanised; the statement is kept for a later session. -/
+def cggmp21_mta_statement : Prop :=
+  ∀ (q N : ℤ) (k γ β : ℤ), 0 < q → 0 ≤ k ∧ k < q → 0 ≤ γ ∧ γ < q → 0 ≤ β ∧ β < q ^ 5 →
+    2 * (q ^ 2 + q ^ 5) < N →
+    ∀ D : ℤ, D ≡ γ * k + β [ZMOD N] → -N < 2 * D → 2 * D ≤ N → D = γ * k + β
+end lindell17
 
 /-! ### the executable verifiers of `Model/SignAlg` (what the driver runs) accept honest outputs -/
 
